@@ -117,6 +117,30 @@ D.update({
  "C20-r5-m3": ("C20", "into_ssa returns early on a value time-out, skipping degree propagation and the final cache_variable_use", "any value cut: every local is then reported as never read"),
 })
 
+D.update({
+ "C01-r6-m1": ("C01", "all definitions are lifted up front on a pool of scoped threads (8 MiB stacks) that claim jobs with a separate bound check and fetch_add", "two or more definitions and a nanosecond window (index out of bounds in a worker, exit 101); also far more memory for many definitions"),
+ "C01-r6-m2": ("C01", "SARIF streamed through a BufWriter whose final into_inner() is `expect`ed", "--sarif-file on a target that opens but fails on write, with a document small enough to sit in the buffer"),
+ "C01-r6-m3": ("C01", "templates without tuples or anonymous components skip the desugaring, which is also the only place that rejects a malformed multi-substitution", "`a + b <== c;` (or `5 = a;`) in a template with no tuple or anonymous component"),
+ "C02-r6-m1": ("C02", "byte-identical sources are stored once in the file library; the early return sits in front of the user-input bookkeeping", "a named file that is byte-identical to an included-only file parsed before it, with the failure in that file"),
+ "C02-r6-m2": ("C02", "the exit status is the issue count cast to u8", "a number of displayed reports that is a multiple of 256"),
+ "C02-r6-m3": ("C02", "a project-wide 10 s analysis budget: definitions after the cut are neither lifted nor analysed", "more than 10 s between the first definition and a later one that cannot be lifted (hash order decides which come late)"),
+ "C03-r6-m1": ("C03", "SARIF conversion splits 32 or more reports over 4 scoped threads of len/4 each and drops the remainder", "--sarif-file and at least 32 displayed findings, not a multiple of 4"),
+ "C03-r6-m2": ("C03", "main returns early, without the summary line, when the SARIF file cannot be written and findings were displayed", "an unwritable --sarif-file and at least one finding"),
+ "C03-r6-m3": ("C03", "the per-file filter keeps a located report iff its file id is below the number of inputs", "two or more inputs and a file parsed before the last input that includes a non-input file (file ids follow the LIFO stack)"),
+ "C14-r6-m1": ("C14", "scope stacks of the SSA environment are recycled through a thread-local pool that only empties the top block", "a definition whose conversion fails inside nested scopes, followed on the same thread by one that reads a same-named local"),
+ "C14-r6-m2": ("C14", "dominance frontiers of graphs with 64 or more blocks are computed by 4 worker threads over n/4 blocks each; the remainder is never scanned", "64 or more blocks, a count that is not a multiple of 4, and a join among the last n % 4 blocks"),
+ "C14-r6-m3": ("C14", "parameter versions are answered from a side table that assignments never update", "a definition that assigns to its own parameter and reads it afterwards"),
+ "C17-r6-m1": ("C17", "templates dropped by the desugaring are removed from a working copy of the template map while that map is iterated", "a template with a desugaring error, another one that instantiates it anonymously, and a hash order"),
+ "C17-r6-m2": ("C17", "input files are read on worker threads and parsed in completion order", "findings that depend on the parse order (a name defined in two files) and a later file that is read faster than an earlier one"),
+ "C17-r6-m3": ("C17", "the directories of the input files are appended to the library list, in command-line order", "inputs in different directories and an include that resolves neither locally nor through -L but exists next to another input"),
+ "C19-r6-m1": ("C19", "definitions are collected in a Vec and keyed by their position afterwards; a file that fails to parse consumes a file id but pushes nothing", "a syntax error in a file that is not the last one parsed, with named and included-only files after it"),
+ "C19-r6-m2": ("C19", "user inputs kept in a Vec sorted by raw bytes and searched with binary_search (component order)", "named files `<stem>.circom` next to a directory `<stem>/` holding another named file"),
+ "C19-r6-m3": ("C19", "a background thread reads every include ahead; the two -L push sites are not guarded by the visited set", "a library file included again after it was parsed (second arm of a diamond)"),
+ "C20-r6-m1": ("C20", "after 256 passes the fixpoint loops stop restarting from the entry block", "more than 256 degree passes, a local array written in the entry block and again after an `if`, read by `<--`, and a cut in the window"),
+ "C20-r6-m2": ("C20", "the CFG records whether value propagation finished; the Num2Bits pass returns early if it did not", "any value cut and a Num2Bits / Bits2Num whose size is not known to be safe"),
+ "C20-r6-m3": ("C20", "the first timed-out definition is stored in a OnceLock with `set(..).unwrap()`", "two time-outs in one process (value and degree of one definition, or two definitions)"),
+})
+
 matrix = {}
 mp = "/verif/seeded/MATRIX.txt"
 if os.path.exists(mp):
